@@ -592,14 +592,47 @@ func checkInheritance(c *Ctx, r *Report) {
 				parentParam = p
 			}
 		}
+		type answer struct {
+			v     ssa.Value
+			b     *ssa.BasicBlock
+			pos   string
+			extra []edgeFact
+		}
+		var answers []answer
+		// (a single exit with a result variable returns a phi: each incoming value is an answer,
+		// given under the facts of the block it comes from)
+		var expand func(v ssa.Value, b *ssa.BasicBlock, pos string, depth int, extra []edgeFact)
+		expand = func(v ssa.Value, b *ssa.BasicBlock, pos string, depth int, extra []edgeFact) {
+			if phi, ok := v.(*ssa.Phi); ok && depth < 5 {
+				for i, e := range phi.Edges {
+					pred := phi.Block().Preds[i]
+					ex2 := extra
+					// the value comes in over a branch edge: what that branch tested holds for it
+					if ifi, isIf := pred.Instrs[len(pred.Instrs)-1].(*ssa.If); isIf {
+						ex2 = append(append([]edgeFact{}, extra...), edgeFact{From: pred, To: phi.Block(), Cond: ifi.Cond, Pol: pred.Succs[0] == phi.Block()})
+					}
+					expand(e, pred, pos, depth+1, ex2)
+				}
+				return
+			}
+			if k, ok := v.(*ssa.Const); ok && k.IsNil() {
+				return // the zero value of a failure path merged into the single exit
+			}
+			answers = append(answers, answer{v, b, pos, extra})
+		}
 		for _, ex := range exitsOf(fi.SSA) {
 			if ex.Ret == nil || ex.Kind == exitFailure {
 				continue
 			}
-			v := ex.Ret.Results[0]
-			sites = append(sites, w.pos(retPos(ex)))
+			expand(unspill(ex.Ret.Results[0], ex.Block), ex.Block, w.pos(retPos(ex)), 0, nil)
+		}
+		for _, an := range answers {
+			v := an.v
+			ex := struct{ Block *ssa.BasicBlock }{an.b}
+			retPosStr := an.pos
+			sites = append(sites, retPosStr)
 			a := sliceOf(v)
-			facts := dominatingFacts(ex.Block)
+			facts := append(dominatingFacts(ex.Block), an.extra...)
 			emptiness := 0
 			for _, f := range facts {
 				cnd, pol := unwrapNot(f.Cond, f.Pol)
@@ -612,19 +645,19 @@ func checkInheritance(c *Ctx, r *Report) {
 			case parentParam != nil && a.Params[parentParam]:
 				nParent++
 				if emptiness != -1 {
-					viol = fmt.Sprintf("%s: the parent's security is returned on a path where the explicit list is not known to be empty", w.pos(retPos(ex)))
+					viol = fmt.Sprintf("%s: the parent's security is returned on a path where the explicit list is not known to be empty", retPosStr)
 				}
 			case a.Calls["core/metadata.GetSecurityFromContext"]:
 				nExplicit++
 				if emptiness != 1 {
-					viol = fmt.Sprintf("%s: the explicit list is returned on a path where it is not known to be non-empty", w.pos(retPos(ex)))
+					viol = fmt.Sprintf("%s: the explicit list is returned on a path where it is not known to be non-empty", retPosStr)
 				}
 			default:
-				viol = fmt.Sprintf("%s: success return yields neither the explicit nor the parent list", w.pos(retPos(ex)))
+				viol = fmt.Sprintf("%s: success return yields neither the explicit nor the parent list", retPosStr)
 			}
 		}
-		if nExplicit != 1 || nParent != 1 {
-			viol = fmt.Sprintf("expected one explicit and one inherited success return in %s, found %d/%d", inh, nExplicit, nParent)
+		if nExplicit < 1 || nParent < 1 {
+			viol = fmt.Sprintf("expected an explicit and an inherited success answer in %s, found %d/%d", inh, nExplicit, nParent)
 		}
 		o := r.add("C03.d", "guardedby", inh+":explicit-iff-nonempty", "GetRouteSecurityWithInheritance returns the method's own list iff it is non-empty, else the parent's", []string{inh}, sites, viol)
 		o.NonTrivial = true
